@@ -21,7 +21,7 @@
 (*   "iterator_first"   the repaired code: the new iterator exists first   *)
 (*                      and its index_back grows with every clone          *)
 (***************************************************************************)
-EXTENDS Ops, TLC, Json
+EXTENDS Ops, TLC, Json, SequencesExt
 
 CONSTANTS MaxN, Faults, NthOrder, CloneOwner
 
@@ -214,6 +214,52 @@ NoLeak == (~alive /\ ~fired) => \A i \in 1..n : slot[i] # "live"
 
 \* a panicking Clone::clone leaves no clone behind (C04 for the iterator)
 NoCloneLeak == cleak = 0
+
+(* ---- model-to-model conformance ------------------------------------------------------------
+   One transition of this model (from a position reached by next / next_back only), written in the
+   event vocabulary of the trace specification: setup calls, the operation with the destructor runs
+   the model performed (the faulty one marked), its return or unwinding with the window the model is
+   left with, then the teardown of the iterator as the model would perform it.  The faithful model's
+   traces must all be accepted by the contract; the as-found nth order produces rejected ones.        *)
+Canonical == \A i \in 1..n : (i <= index \/ i > index_back) => slot[i] = "moved"
+Win(a, b) == [i \in 1..(b - a) |-> a + i]
+Obs(a, b) == <<[h |-> 2, items |-> Win(a, b), len |-> b - a, lo |-> b - a, hi |-> b - a]>>
+CallEv(name, argv, byv) == [ev |-> "call", op |-> name, recv |-> <<2>>, byval |-> <<byv>>, arg |-> argv, elems |-> <<>>,
+                            n |-> 0, okind |-> "arr", truthful |-> TRUE, spare |-> FALSE]
+RetEv(vals, a, b) == [ev |-> "ret", outs |-> <<>>, vals |-> vals, obs |-> Obs(a, b), res |-> -1, err |-> FALSE, dbg |-> "", dbgref |-> ""]
+RECURSIVE SetupFront(_), SetupBack(_, _)
+SetupFront(j) == IF j >= index THEN <<>>
+                 ELSE <<CallEv("next", -1, FALSE), RetEv(<<j + 1>>, j + 1, n)>> \o SetupFront(j + 1)
+SetupBack(j, fr) == IF j <= index_back THEN <<>>
+                    ELSE <<CallEv("next_back", -1, FALSE), RetEv(<<j>>, fr, j - 1)>> \o SetupBack(j - 1, fr)
+\* destructor runs of this step, in slot order; the one that panics is marked
+StepDrops == LET D == {i \in 1..n : drops'[i] > drops[i]} IN
+             [j \in 1..Cardinality(D) |->
+                LET i == CHOOSE x \in D : Cardinality({y \in D : y < x}) = j - 1
+                IN [ev |-> "drop", id |-> i, panic |-> (fired' /\ ~fired /\ i = pan)]]
+\* teardown of the iterator as the model would do it from the successor state
+TearDrops == [j \in 1..(index_back' - index') |-> [ev |-> "drop", id |-> index' + j, panic |-> FALSE]]
+Yielded == {i \in 1..n : slot'[i] = "moved"}
+LooseRelease == FlattenSeq([j \in 1..Cardinality(Yielded) |->
+                   LET i == CHOOSE x \in Yielded : Cardinality({y \in Yielded : y < x}) = j - 1
+                   IN <<[ev |-> "release_elem", id |-> i], [ev |-> "drop", id |-> i, panic |-> FALSE]>>])
+StepTrace ==
+    <<[ev |-> "case_start", case |-> "mech", prop |-> "model", ety |-> "tk", rec |-> FALSE],
+      [ev |-> "mk", h |-> 1, kind |-> "arr", items |-> Win(0, n), inner |-> 0, blk |-> 0],
+      [ev |-> "call", op |-> "into_iter", recv |-> <<1>>, byval |-> <<TRUE>>, arg |-> -1, elems |-> <<>>, n |-> n, okind |-> "arr", truthful |-> TRUE, spare |-> FALSE],
+      [ev |-> "ret", outs |-> <<[h |-> 2, kind |-> "iter", items |-> Win(0, n), inner |-> 0, blk |-> 0]>>, vals |-> <<>>, obs |-> <<>>,
+       res |-> -1, err |-> FALSE, dbg |-> "", dbgref |-> ""]>>
+    \o SetupFront(0) \o SetupBack(n, index)
+    \o <<CallEv(last'.op, IF last'.op \in {"nth", "nth_back"} THEN last'.arg ELSE -1, FALSE)>>
+    \o StepDrops
+    \o (IF last'.unwound
+        THEN <<[ev |-> "unwound", obs |-> Obs(index', index_back'), msg |-> "injected", has_expected_msg |-> FALSE]>>
+        ELSE <<RetEv(last'.res, index', index_back')>>)
+    \o <<[ev |-> "release", h |-> 2]>> \o TearDrops \o <<[ev |-> "released", h |-> 2, panicked |-> FALSE]>>
+    \o LooseRelease
+    \o <<[ev |-> "case_end"]>>
+EmitTr == (Canonical /\ alive /\ ~fired /\ last'.op \in {"next", "next_back", "nth", "nth_back"})
+              => PrintT(<<"MTR", ToJson(StepTrace)>>)
 
 (* ---- scenario emission: one line per explored transition ---------------- *)
 Emit ==
